@@ -180,8 +180,14 @@ def resolve(f, table=None):
     a.lazy("call_route", route_chain)
     a.lazy("rs_call", lambda: route()[0])
     a.lazy("uf_call", lambda: route()[1])
-    a.lazy("uf_get", lambda: one([q for q in tree_callees(f, a["uf_call"]) if self_of(f, q) == "function::UserFunctions" and q != a["uf_call"]],
-                                 "function lookup used by UserFunctions::call"))
+    def uf_get():
+        c = [q for q in tree_callees(f, a["uf_call"]) if self_of(f, q) == "function::UserFunctions" and q != a["uf_call"]]
+        if len(c) > 1:
+            # the lookup hands out a reference to the registered function; other helpers (an associated `invoke`) do not
+            refs = [q for q in c if f.ty_s(f.bodies[q]["locals"][0]["ty"]).startswith(("std::result::Result<&", "std::option::Option<&"))]
+            c = refs or c
+        return one(c, "function lookup used by UserFunctions::call")
+    a.lazy("uf_get", uf_get)
     a.lazy("rs_symbol", lambda: one([q for q in tree_callees(f, a["ctx_symbol"]) if self_of(f, q) == "ruleset::RuleSet"],
                                     "RuleSet method called by the context's symbol lookup"))
     a.lazy("symbols_get", lambda: one([q for q in tree_callees(f, a["rs_symbol"]) if self_of(f, q) == "symbol::Symbols"],
